@@ -84,6 +84,16 @@ check("C16", "model_checking",
       "orderings and the OpenMP runtime are outside the model.",
       "stateless/explicit-state interleaving exploration of prange bodies under a controlled scheduler + exhaustive colouring lattice")
 
+check("C17", "exploration",
+      "Exhaustive sweep mesh x operator family (Laplace/Helmholtz real+complex/modified Helmholtz/Maxwell) x operator x space pair "
+      "(whole grid, segments that are NOT a prefix of the element numbering, barycentric) x global quadrature order x near-field "
+      "representation, with exafmm replaced by an exact direct summation: the full FMM-mode matrix (all unit vectors) and a complex "
+      "vector against the dense-mode matrix; all potential operators likewise; two-grid operators; thorough tier also reproduces the "
+      "shipped fmm_*.npy vectors within the tests' tolerance.",
+      "DESIGN.md 4/C17",
+      "Trusted: the exact-summation stub (bex/stubs/exafmm, independent of fmm/helpers.py). Says nothing about a real FMM's accuracy.",
+      "exhaustive sweep over operator x space x option tuples against the dense-mode reference with an exact far-field stub")
+
 ALL = ["C%02d" % i for i in range(1, 21)]
 
 
